@@ -114,6 +114,12 @@ theorem C02_depack_limit_sites :
       Xmp.Gen.DepackLimits.sites.any (fun s => s.file == f && s.allocSites > 0 && !s.capTokens.isEmpty)) = true := by
   decide
 
+/-- **C02_decrunch_one_level**: the depack entry never nests — `libxmp_decrunch` hands the stream to one depacker and
+returns; no call leads back into it (call-graph fact regenerated from src/depackers/depacker.c on every run).  So the
+stack depth and the number of unpack passes of a load are 1 whatever is packed inside what, and the work bounds of the
+individual depackers above are the bounds of the whole unpacking step. -/
+theorem C02_decrunch_one_level : Xmp.Gen.DepackLimits.decrunchBackEdges = 0 := by decide
+
 /-- the ceiling itself is the documented 512 MiB -/
 theorem C02_depack_limit_value : Xmp.Gen.DepackLimits.depackLimit = 512 * 1024 * 1024 := by decide
 
